@@ -147,3 +147,50 @@ Proof.
     + eexists. split; [reflexivity | simpl; auto].
     + intros (r & A & B). vm_compute in A. inversion A; subst. simpl in B. contradiction.
 Qed.
+
+(* ---- leaving with-mutex-lock by return-from / go: the marker is a VALUE that travels up through the forms;
+        at the lock frame the deferred Unlock runs ---- *)
+Definition ex_marker (tb : bool) : prog :=
+  mkP [] 2 [0] [[OBlock tb 0 [OLock 1 [OCatch [OLock 0 [OStore 0 (ZLit 1); OExit tb 0]]]; OStore 0 (ZLit 9)]; OLock 0 [OLock 1 [OLoad 0]]]].
+Definition insideb (s : state) (i m : nat) : bool :=
+  match nth_error (rs s) i with Some r => existsb (Nat.eqb m) (locks_of (stk r)) | None => false end.
+(* after 6 moves the marker is set inside both locks; the 7th move leaves the inner with-mutex-lock and frees its
+   mutex, the 9th the outer one; the block catches the marker (the store after it is skipped); the routine then
+   takes both mutexes again and finishes *)
+Definition marker_facts (tb : bool) : bool :=
+  match run_sched (init (ex_marker tb)) (repeat (0, 0)%nat 6) with
+  | Some s =>
+      insideb s 0 0 && insideb s 0 1 &&
+      match ext (nth 0 (rs s) (init_routine [])) with Some (t, b) => Bool.eqb t tb && Nat.eqb b 0 | None => false end &&
+      match step s 0 0 with
+      | Some s1 =>
+          negb (insideb s1 0 0) && insideb s1 0 1 &&
+          match nth_error (mus s1) 0 with Some None => true | _ => false end &&
+          match run_sched s1 (repeat (0, 0)%nat 2) with
+          | Some s3 =>
+              negb (insideb s3 0 1) &&
+              match mus s3 with [None; None] => true | _ => false end &&
+              match run_sched s3 (repeat (0, 0)%nat 7) with
+              | Some sf => all_finished sf &&
+                           match mem sf, log (nth 0 (rs sf) (init_routine [])) with
+                           | [1], [EvLoad 0 1] => true | _, _ => false end
+              | None => false
+              end
+          | None => false
+          end
+      | None => false
+      end
+  | None => false
+  end.
+Example exit_by_marker : marker_facts false = true /\ marker_facts true = true.
+Proof. split; vm_compute; reflexivity. Qed.
+
+(* a return-from that is not the last form of with-mutex-lock does not leave it: the marker is dropped and the
+   body carries on (slip's forms only pass on the value of their last form; C07) -- the mutex is released at the end *)
+Definition ex_dropped : prog := mkP [] 1 [0] [[OBlock false 0 [OLock 0 [OExit false 0; OStore 0 (ZLit 5)]]; OLock 0 [OLoad 0]]].
+Example marker_dropped :
+  exists sf, run_sched (init ex_dropped) (repeat (0, 0)%nat 11) = Some sf /\ all_finished sf = true /\ mem sf = [5] /\ mus sf = [None].
+Proof.
+  destruct (run_sched (init ex_dropped) (repeat (0, 0)%nat 11)) as [s|] eqn:E; [| vm_compute in E; discriminate].
+  exists s. split; auto. vm_compute in E. inversion E; subst. vm_compute. auto.
+Qed.
